@@ -229,8 +229,19 @@ def sizeof_cb(cfg):
     return cb
 
 
+def _flatten_ctx(ctx, out):
+    """The integer fields read so far, including those folded in from anonymous structure / union members (whose
+    values sit under the member's '#i' key)."""
+    for k, v in ctx.items():
+        if isinstance(k, str) and k.startswith("#") and isinstance(v, dict):
+            _flatten_ctx(v, out)
+        elif isinstance(v, int) and not isinstance(v, bool) and isinstance(k, str) and not k.startswith("$"):
+            out.setdefault(k, v)
+    return out
+
+
 def eval_len(text, ctx, cfg):
-    ictx = {k: v for k, v in ctx.items() if isinstance(v, int) and not isinstance(v, bool)}
+    ictx = _flatten_ctx(ctx, {})
     v, flags = refexpr.evaluate(text, ictx, cfg.consts, sizeof_cb(cfg))
     if v is None or "cdiv" in flags:
         raise ModelUnsupported("expression outside the claimed domain")
